@@ -301,6 +301,21 @@ impl Ctx {
                 })
                 .map(|_| json!({}))
             }
+            "SignMutualClose" => {
+                use lightning_signer::node::SpendType;
+                use lightning_signer::util::test_utils::make_test_funding_wallet_addr;
+                let c = content(r["c"].as_str().unwrap());
+                // the funder (holder) pays the closing fee of 1000 sat
+                let script = make_test_funding_wallet_addr(&self.fx.node, 1, SpendType::P2wpkh).script_pubkey();
+                let cp_script = make_test_funding_wallet_addr(&self.fx.node, 77, SpendType::P2wpkh).script_pubkey();
+                let path: bitcoin::bip32::DerivationPath =
+                    vec![bitcoin::bip32::ChildNumber::from_normal_idx(1).unwrap()].into();
+                let cp = if c.to_cp > 0 { Some(cp_script) } else { None };
+                node.with_channel(id, |chan| {
+                    chan.sign_mutual_close_tx_phase2(c.to_holder - 1000, c.to_cp, &Some(script.clone()), &cp, &path)
+                })
+                .map(|_| json!({}))
+            }
             "SignCp" => {
                 let c = content(r["c"].as_str().unwrap());
                 let pt = tree_point(&tree_of(r["t"].as_str().unwrap()), n);
